@@ -1183,6 +1183,14 @@ func getLoginDestination(r *http.Request) string {
 			!strings.HasPrefix(inboundLoginDestination, "//") {
 			loginDestination = inboundLoginDestination
 		}
+		// Browsers treat "\" like "/" and drop tabs and newlines while
+		// parsing, so "/\host" and "/<TAB>/host" also leave this origin.
+		if strings.HasPrefix(inboundLoginDestination, "/\\") ||
+			strings.ContainsFunc(inboundLoginDestination, func(r rune) bool {
+				return r < 0x20 || r == 0x7f
+			}) {
+			loginDestination = profilePath
+		}
 	}
 	return loginDestination
 }
